@@ -501,8 +501,15 @@ def stream_hypotheses(X):
                 if proto != protos[0] and X.over('hypotheses', dl): break
                 D = pickle.dumps(obj, protocol=proto)
                 # H3: deterministic within the process
-                if pickle.dumps(pickle.loads(D), protocol=proto) != D or pickle.dumps(obj, protocol=proto) != D:
-                    c.count('H3:redump-differs:' + kind)
+                if pickle.dumps(obj, protocol=proto) != D:
+                    c.count('info:second-dump-of-same-object-differs:' + kind)   # harmless: a result is dumped once, right after it was computed
+                if pickle.dumps((payload(kind, seed), rl), protocol=proto) != D:   # what H3 is about: a fresh computation dumps the same bytes
+                    c.count('H3:fresh-result-dumps-differently-while-equal-object-alive:' + kind)
+                    if kind != 'topo':   # topologies: known (sharing of interned sub-objects), consequences are judged by stream_two_crashes
+                        nbad += 1
+                        c.broken_no_input('hyp:H3', 'two dumps of the same deterministic result differ within one process (%s)' % kind, dict(stream='hypotheses', payload=kind, pseed=seed, protocol=proto))
+                if pickle.dumps(pickle.loads(D), protocol=proto) != D:
+                    c.count('info:dump-of-loaded-copy-differs:' + kind)   # harmless: entries are never re-dumped from a loaded copy
                 n = len(D)
                 if n > 3000 and not (thorough and seed == 0):
                     ks = sorted(set(list(range(0, 300)) + list(range(n - 300, n)) + [c.rng.randrange(n) for _ in range(300)] + list(range(0, n, 4096)) + list(range(8191, n, 8192))))
@@ -683,6 +690,67 @@ def stream_mixture_exploration(X):
         if isinstance(stats, dict):
             for s_, n in stats.items(): c.count('mixture-over-old-format:' + s_, n)
         c.obligation('explore:mixture-over-old-format:' + kind, True, 'exploration', stats)
+
+
+def stream_two_crashes(X):
+    """Two killed writers whose dumps of the SAME result differ (H3 fails): nutils topologies pickle 26 bytes longer when an
+    equal topology is alive in the writing process (different sharing of interned sub-objects).  The files
+    `take k new ++ drop k (take m old)` are reachable by two real kills; the REAL decorator is run on them (in a child
+    with memory/time limits) and the uncached call is the oracle."""
+    c = X.c
+    import gc
+    kind, seed = 'topo', c.rng.randrange(2)
+    rl = treelog.RecordLog()
+    with treelog.set(rl): emit_logs(kind, seed)
+    gc.collect()
+    fresh = payload(kind, seed); D1 = pickle.dumps((fresh, rl)); del fresh; gc.collect()
+    keep = payload(kind, seed); other = payload(kind, seed); D2 = pickle.dumps((other, rl)); del keep, other; gc.collect()
+    ref = X.reference(kind, seed)
+    if ref['D'] is None or ref['spec'][0] != 'ret':
+        return
+    c.count('two-crashes:encodings-' + ('differ' if D1 != D2 else 'equal'))
+    if D1 == D2 or ref['D'] not in (D1, D2):
+        c.obligation('oracle:two-crashes', True, 'exploration', 'the two encodings could not be produced in this process (%d, %d, reference %d bytes)' % (len(D1), len(D2), len(ref['D'])))
+        return
+    d = X.newdir()
+    path = os.path.join(d, ref['files'][0])
+    nscan = 120 if c.tier == 'quick' else 1200
+    budget = 6 if c.tier == 'quick' else 60
+    pairs = []
+    for new, old, tag in ((D1, D2, 'short-over-long'), (D2, D1, 'long-over-short')):
+        for m in (len(old) - 25, len(old) - 1, len(old) // 2):
+            lo = next(i for i, (x, y) in enumerate(zip(new, old)) if x != y)
+            ks = sorted(set(k for k in list(range(max(1, lo - 5), min(m, lo + nscan))) + [c.rng.randrange(1, m) for _ in range(nscan // 4)] if 0 < k < m))
+            pairs += [(tag, k, m, new[:k] + old[k:m]) for k in ks]
+
+    def explore():
+        stats = collections.Counter(); bad = []
+        t_end = time.time() + budget
+        for tag, k, m, data in pairs:
+            if time.time() > t_end: stats['budget-cut'] += 1; break
+            write(path, data)
+            try:
+                out, n, log, trace = real_call(d, kind, seed)
+            except MemoryError:
+                out = ('exc', 'MemoryError', '')
+            r = 'right' if out == ref['spec'] else 'WRONG-VALUE' if out[0] == 'ret' else 'raises ' + str(out[1])
+            stats[tag + ':' + r] += 1
+            if r != 'right' and len(bad) < 5: bad.append((tag, k, m, r, str(out[2:3])[:120]))
+        return dict(stats), bad
+    res = guarded(explore, seconds=budget + 60)
+    X.drop(d)
+    if not (isinstance(res, tuple) and isinstance(res[0], dict)):
+        c.obligation('oracle:two-crashes', True, 'exploration', 'guarded child failed: %s' % (res,)); return
+    stats, bad = res
+    for s_, n in stats.items(): c.count('two-crashes:' + s_, n)
+    c.case(('two-crashes', kind, seed), nontrivial=True)
+    c.obligation('oracle:two-crashes', not bad, 'correspondence', dict(stats))
+    if bad:
+        tag, k, m, r, msg = bad[0]
+        c.failing_input('two-killed-writers:entry-poisoned-by-uncaught-unpickling-exception',
+                        'after two killed writers whose pickles of the same result differ (a topology pickles %d or %d bytes depending on whether an equal topology is alive in the process) '
+                        'the entry `new[:%d] + old[%d:%d]` makes every later call %s instead of recomputing (cache.function neither truncates nor catches this exception)'
+                        % (len(D1), len(D2), k, k, m, r), dict(stream='two-crashes', payload=kind, pseed=seed, direction=tag, k=k, m=m, outcome=r, message=msg, examples=bad, sizes=[len(D1), len(D2)]))
 
 
 # =============================================================================================== stream F: function histories vs model
@@ -1660,7 +1728,7 @@ def run(c):
               'subclasses of length 0-3 with finite/infinite/raising sequences; concurrency: 2-3 real processes stepped through lock/load/compute/store gates '
               'by random schedules incl. SIGKILL.  A case is non-trivial when it has more than one event or a non-empty initial state; distinct by its full data')
     c.assumptions += ['pickle hypotheses H0-H3 (Props/C18.lean `Hyps`/`RHyps`) hold for the entries written: validated by fault enumeration on the real pickle in every run, not proved',
-                      'H3 (deterministic dump) is known to fail across processes for set-valued results (PYTHONHASHSEED); explored, not claimed',
+                      'H3 (deterministic dump) is known to fail for set-valued results (PYTHONHASHSEED) and for nutils topologies (26 bytes longer when an equal topology is alive in the process); the reachable consequences are run through the real decorator by stream_two_crashes',
                       'a killed process leaves a prefix of its dump over the old content (no torn/zero-filled blocks, i.e. process crash, not power loss)',
                       'distinct (function, arguments) pairs use distinct files: injectivity of nutils_hash is property C17',
                       'flock semantics of the OS (exclusive, released on process death) are trusted; the msvcrt and fallback branches of _lock_file are not exercised (Linux)',
@@ -1683,7 +1751,7 @@ def run(c):
 
     only = os.environ.get('C18_ONLY')
     pending = []
-    for st in (stream_hypotheses, stream_h3_processes, stream_truncation, stream_function_histories, stream_mixture_exploration, stream_keys,
+    for st in (stream_hypotheses, stream_h3_processes, stream_truncation, stream_function_histories, stream_mixture_exploration, stream_two_crashes, stream_keys,
                stream_recursion, stream_concurrency, stream_recursion_concurrency, stream_users):
         if only and st.__name__ not in only.split(','): continue
         g = st(X)
